@@ -18,7 +18,7 @@ def extract_params():
     sig, _, _ = harness("halflock", "--signature")
     rd, st = sig["read"], sig["store"]
     stale = []
-    c = dict(ReadOrder="count_then_ptr", Barrier="both", Sticky=True)
+    c = dict(ReadOrder="count_then_ptr", Barrier="both", Sticky=True, Publish="swap")
     c.update(DEFAULT_ORD)
     shape = [(k, "lock" if l.startswith("lock") else l) for k, l, _, _ in rd]
     if shape == [("load", "gen"), ("fetch_add", "lock"), ("load", "data"), ("fetch_sub", "lock")]:
@@ -30,9 +30,10 @@ def extract_params():
     else:
         stale.append("read(): unmodelled step shape %s" % shape)
     wshape = [(k, l) for k, l, _, _ in st]
-    if wshape[:3] == [("lock", "mtx"), ("load", "data"), ("swap", "data")] and \
-            wshape[-1:] == [("unlock", "mtx")]:
+    if wshape[:2] == [("lock", "mtx"), ("load", "data")] and len(wshape) > 3 and \
+            wshape[2] in (("swap", "data"), ("store", "data")) and wshape[-1:] == [("unlock", "mtx")]:
         c["OrdWPtr"], c["OrdWSwap"] = st[1][2], st[2][2]
+        c["Publish"] = wshape[2][0]
         mid = wshape[3:-1]
         if mid == [("load", "lock0"), ("load", "lock1"), ("fetch_add", "gen")]:
             c["Barrier"] = "both"
